@@ -53,6 +53,7 @@ pub const Y: S = 91;
 pub const FS: S = 92;
 pub const FT: S = 93;
 pub const FU: S = 94;
+pub const FV: S = 95;
 
 pub fn rule_pool(p: u32) -> Vec<Rule> {
     let r = |name: &'static str, l: Pat, r: Pat| Rule { name, l, r, cond: None, cond2: None, cond_eq: None };
@@ -107,6 +108,7 @@ pub fn rule_pool(p: u32) -> Vec<Rule> {
         // a right side with a slot of its own: every a - a is the same class, which therefore has a
         // redundant slot that its smallest term mentions twice (no constant is introduced)
         r("add-neg-canon", n2("add", v(0), n1("neg", v(0))), n2("add", var(FU), n1("neg", var(FU)))),
+        r("mul-zero-canon", n2("mul", v(0), num(0)), n2("mul", var(FV), num(0))),
     ]
 }
 
